@@ -450,6 +450,7 @@ def ctorvalues(pid):
                     "creation_time": r"^param:timestamp$", "modified_time": r"^param:timestamp$", "stream_len": r"^const:0$"},
         }
         n = 0
+        blank = {}      # field values of DirEntry::unallocated(), for `..DirEntry::unallocated()` in the other constructor
         for nm, fields in want.items():
             f = ctx.fx.fns.get(DIRENTRY + "::" + nm)
             if f is None:
@@ -462,12 +463,16 @@ def ctorvalues(pid):
                 for i, st in enumerate(blk["stmts"]):
                     if st["s"] == "assign" and st["rv"]["r"] == "aggregate" and st["rv"].get("adt", "") == DIRENTRY:
                         got = dict(zip(st["rv"].get("fields", []), [pr.operand(o) for o in st["rv"].get("ops", [])]))
+                        if nm == "unallocated":
+                            blank = dict(got) if not blank else {k: v for k, v in blank.items() if got.get(k) == v}
                         for fld, rx in fields.items():
                             n += 1
                             val = got.get(fld)
                             if val is None:
                                 continue
-                            m = re.match(r"^var:(\w+)$", val)
+                            m = re.match(r"^(?:\w+::)*DirEntry::unallocated\(\)\.(\w+)$", val)
+                            if m and nm != "unallocated" and m.group(1) in blank:
+                                val = blank[m.group(1)]
                             if re.search(rx, val):
                                 res.ok({"constructor": nm, "field": fld, "value": val[:50]})
                             else:
